@@ -117,6 +117,10 @@ func augmentable(k string) bool {
 
 var augCounter int
 
+// AugmentIfFeatures: AddAugments may put an if-feature statement on an augment (set by the checks that compare
+// if-feature lists).
+var AugmentIfFeatures bool
+
 // augContent draws the nodes an augment adds to a target of the given kind.
 func augContent(t *rapid.T, set *ymodel.Set, from *ymodel.Module, tg Target, tag string) []*ymodel.Node {
 	var nodes []*ymodel.Node
@@ -247,6 +251,10 @@ func AddAugments(t *rapid.T, set *ymodel.Set, min, max int) map[string]int {
 				a.Path = p
 				labels["augment/unprefixed-own-steps"]++
 			}
+		}
+		if AugmentIfFeatures && rapid.IntRange(0, 3).Draw(t, "augment-if-feature") == 0 {
+			a.IfFeatures = []string{from.FeatureName(8)}
+			labels["augment/if-feature"]++
 		}
 		tag := fmt.Sprintf("a%d%s", i+1, strings.ReplaceAll(from.Name, "-", ""))
 		a.Nodes = augContent(t, set, from, tg, tag)
